@@ -197,6 +197,12 @@ class Collocator:
             filesets[1], start=start, end=end, max_interval=max_interval,
         ))
 
+        if not matches:
+            # No file of the primary fileset is close (in time) to a file of
+            # the secondary fileset, hence there are no collocations:
+            self._info("Found no matching files, nothing to collocate")
+            return
+
         if processes is None:
             processes = 1
 
